@@ -10,6 +10,12 @@ from .core import frac
 
 TOLS = [None, None, 1e-5, 1e-9, 0.0]
 
+# Input classes on which unchanged pyCSEP contradicts the property as read by this check (observed and counted, not enforced)
+AWAITING_DECISION = [
+    "a NaN or -inf value: bin1d_vec returns the minimum int64 (p - a0 + |p|*eps is nan, cast to int64) instead of -1, so "
+    "get_magnitude_index does not raise for it and get_mag_idx returns that number; +inf is handled and enforced",
+]
+
 
 def _mags_for(c02, g, rng, tol):
     """magnitudes around a sample of edges (on the edge, +-1..4096 ulps, mid-bin), a few below the first edge, far above the last"""
@@ -218,6 +224,12 @@ def run_calls(ctx, c02, tier):
                 raise
             ctx.run.oracle_failure(dict(kind="calls", grid=spec, what="exception"),
                                    f"exception {type(e).__name__}: {e} in the magnitude call sites")
+    for spec in specs[:3] + rng.sample(specs[3:], min(len(specs) - 3, 9 if tier == "quick" else 40)):
+        try:
+            session(ctx, c02, spec, tier)
+        except RuntimeError:
+            raise
+    nonfinite_and_sizes(ctx, c02, tier)
     # argument checks of create_space_magnitude_region
     from csep.core import regions
     reg = regions.CartesianGrid2D.from_origins(numpy.array([[0., 0.], [0.1, 0.]]), dh=0.1)
@@ -230,3 +242,242 @@ def run_calls(ctx, c02, tier):
             pass
         except Exception as e:
             ctx.run.count("create_space_magnitude_region_other_exception:" + type(e).__name__)
+
+
+# ------------------------------------------------------------------------------------------------- sessions on shared objects
+def _judge(c02, run, case, what, g, pd, tol, vals, out):
+    """every index must be in the property's allowed set for the CURRENT edges"""
+    for x, i in zip(vals, out):
+        a = c02.allowed_val(g, pd, tol, True, x)
+        if int(i) not in a:
+            run.oracle_failure(dict(case, what=what, p=[c02.val_repr(pd, x)]),
+                               f"{what}: index {int(i)} for {c02.val_repr(pd, x)}; with the edges as they are NOW the property allows {sorted(a)}")
+            return False
+    return True
+
+
+def session(ctx, c02, spec0, tier):
+    """ONE edge array object shared by a region, two catalogs and forecasts; ONE value array; a random sequence of calls
+    (bin1d_vec in both modes / with tol, discretize, get_mag_idx, magnitude_counts with and without explicit edges,
+    get_magnitude_index, magnitude_bins / cleaner_range), in-place edits of the shared edge array by the caller, re-binding of
+    the region's edges (create_space_magnitude_region, a second forecast on the same region). After every step the result is
+    judged against the edges as they are at that moment (recomputed from scratch), and the arrays handed in must be unchanged."""
+    run, rng = ctx.run, ctx.rng
+    from csep.core.catalogs import CSEPCatalog
+    from csep.core.forecasts import GriddedForecast
+    from csep.core import regions
+    from csep.utils.calc import bin1d_vec, discretize, cleaner_range
+    from csep.utils.constants import CSEP_MW_BINS
+    g0 = c02.build_grid(spec0)
+    if g0.n < 3 or g0.bd != "f64" or not g0.premise("f64", None):
+        return
+    B = numpy.array(g0.bins, dtype=float)            # THE shared edge array
+    h = float(g0.hF)
+
+    def grid_now(arr):
+        return c02.Grid(arr, dict(kind="explicit", edges=[repr(float(x)) for x in arr]))
+    g = grid_now(B)
+    idx = numpy.arange(g.n) if g.n <= 10 else numpy.unique(numpy.array([0, 1, g.n - 1] + rng.sample(range(g.n), 6)))
+    P = c02.values_around(g, rng, idx, "f64", dense=False)
+    P = P[numpy.isfinite(P) & (numpy.abs(P) < 1e12)]
+    P = numpy.random.default_rng(rng.randrange(2 ** 32)).permutation(P)[:150]
+    Psnap = P.copy()
+    steps = []
+    case0 = dict(kind="calls", grid=spec0, tag="session", what="session")
+    run.case(case0, ("c02-session", ctx.gid, len(P)))
+    run.count("shared_object_sessions")
+    try:
+        R = regions.create_space_magnitude_region(regions.CartesianGrid2D.from_origins(numpy.array([[0., 0.], [0.1, 0.]]), dh=0.1), B)
+        R0 = regions.CartesianGrid2D.from_origins(numpy.array([[0., 0.], [0.1, 0.]]), dh=0.1)      # a region without magnitudes
+        mk = lambda reg: CSEPCatalog(data=[(str(i), 1000 * i, 0.05, 0.05, 0.0, float(m)) for i, m in enumerate(P)], region=reg)
+        cats = [mk(R), mk(R), mk(None), mk(R0)]
+        fore = GriddedForecast(data=numpy.ones((2, g.n)), region=R, magnitudes=B)
+    except Exception as e:
+        run.oracle_failure(case0, f"building the session objects raised {type(e).__name__}: {e}")
+        return
+    cur = B               # the array object the shared region's magnitudes are expected to BE
+    for stepno in range(rng.randint(5, 10)):
+        kind = rng.choice(["bin1d", "bin1d", "disc", "magidx", "counts", "counts_explicit", "gmi", "edit", "rebind", "forecast2",
+                           "generator", "default_bins"])
+        tol = rng.choice(TOLS)
+        case = dict(case0, steps=steps + [kind], tol=tol)
+        gcur = grid_now(numpy.asarray(cur, dtype=float))
+        if not gcur.premise("f64", tol):
+            tol = None
+            if not gcur.premise("f64", None):
+                break
+        Bsnap = numpy.array(cur, dtype=float).copy()
+        try:
+            if kind == "bin1d":
+                rc = rng.random() < 0.5
+                out = numpy.asarray(bin1d_vec(P, cur, tol=tol, right_continuous=rc))
+                for x, i in zip(P, out):
+                    a = c02.allowed_val(gcur, "f64", tol, rc, x)
+                    if int(i) not in a:
+                        run.oracle_failure(dict(case, kind="bin1d", grid=gcur.spec, pd="f64", rc=rc, p=[repr(float(x))]),
+                                           f"bin1d_vec (step {stepno + 1} of a session on shared arrays) returned {int(i)} for {float(x)!r}; allowed {sorted(a)}")
+                        return
+            elif kind == "disc":
+                inr = P[(P >= cur[0] + 1e-6 * h) & (P < cur[-1])]
+                if len(inr):
+                    d = numpy.asarray(discretize(inr, cur, right_continuous=True))
+                    for x, v in zip(inr, d):
+                        a = c02.allowed_val(gcur, "f64", None, True, x)
+                        if not any(k >= 0 and float(gcur.e64[k]) == float(v) for k in a):
+                            run.oracle_failure(dict(case, p=[repr(float(x))]), f"discretize gave {float(v)!r} for {float(x)!r}; allowed bins {sorted(a)} of the current edges")
+                            return
+            elif kind == "magidx":
+                c = rng.choice(cats[:2])
+                if not _judge(c02, run, case, "get_mag_idx", gcur, "f64", None, P, numpy.asarray(c.get_mag_idx())):
+                    return
+            elif kind in ("counts", "counts_explicit"):
+                c = rng.choice(cats[:2])
+                if kind == "counts":
+                    cnt = numpy.asarray(c.magnitude_counts(tol=tol), dtype=float)
+                    gg = gcur
+                else:
+                    other = numpy.array(cur, dtype=float) + 3 * h          # explicit edges: the region's own edges must stay bound
+                    gg = grid_now(other)
+                    if not gg.premise("f64", tol):
+                        continue
+                    cnt = numpy.asarray(c.magnitude_counts(mag_bins=other, tol=tol), dtype=float)
+                al = [c02.allowed_val(gg, "f64", tol, True, x) for x in P]
+                lo, hi = numpy.zeros(gg.n), numpy.zeros(gg.n)
+                for a in al:
+                    for k in a:
+                        if k >= 0:
+                            hi[k] += 1
+                    if len(a) == 1 and min(a) >= 0:
+                        lo[min(a)] += 1
+                if cnt.shape != (gg.n,) or numpy.any(cnt < lo) or numpy.any(cnt > hi):
+                    run.oracle_failure(case, f"magnitude_counts ({kind}, tol={tol!r}) = {cnt.tolist()[:12]}…; per bin between {lo.tolist()[:12]} and {hi.tolist()[:12]} for the edges in force")
+                    return
+            elif kind == "gmi":
+                ok = [x for x in P if -1 not in c02.allowed_val(gcur, "f64", tol, True, x)]
+                if ok and fore.region.magnitudes is cur:
+                    if not _judge(c02, run, case, "get_magnitude_index", gcur, "f64", tol, ok, numpy.asarray(fore.get_magnitude_index(numpy.array(ok), tol=tol))):
+                        return
+            elif kind == "edit":
+                # the CALLER moves the shared edges in place: every consumer must follow (no result may be cached per array object)
+                cur += rng.choice([0.5 * h, h, -2 * h, 3 * h])
+                steps.append(kind)
+                continue
+            elif kind == "rebind":
+                new = numpy.array(cur, dtype=float) + rng.choice([h, -h, 5 * h])
+                regions.create_space_magnitude_region(R, new)
+                cur = new
+            elif kind == "forecast2":
+                new = numpy.array(cur, dtype=float)[: max(3, gcur.n - 1)].copy()
+                f2 = GriddedForecast(data=numpy.ones((2, len(new))), region=R, magnitudes=new)     # binds ITS edges to the shared region
+                cur = new
+                g2 = grid_now(new)
+                ok = [x for x in P if -1 not in c02.allowed_val(g2, "f64", None, True, x)]
+                if ok and g2.premise("f64", None):
+                    if not _judge(c02, run, case, "get_magnitude_index of the second forecast", g2, "f64", None, ok,
+                                  numpy.asarray(f2.get_magnitude_index(numpy.array(ok)))):
+                        return
+            elif kind == "generator":
+                m = rng.randint(1, 3)
+                D = rng.randint(1, 50)
+                S = rng.randint(-200, 900)
+                cnt = rng.randint(2, 40)
+                fn = rng.choice([cleaner_range, regions.magnitude_bins])
+                args = (float(Fraction(S, 10 ** m)), float(Fraction(S + cnt * D, 10 ** m)), float(Fraction(D, 10 ** m)))
+                exp = [float(Fraction(S + k * D, 10 ** m)) for k in range(cnt + 1)]
+                a1 = fn(*args)
+                got1 = [float(v) for v in a1]
+                a1 += 1.0                                    # the caller edits the returned array
+                got2 = [float(v) for v in fn(*args)]
+                if got1 != exp or got2 != exp:
+                    run.oracle_failure(dict(case, kind="cleaner", S=S, D=D, m=m, cnt=cnt), f"{fn.__name__}{args} = {got1[:5]}… then {got2[:5]}… (expected {exp[:5]}…, {len(exp)} edges) inside a session")
+                    return
+            else:   # default_bins (D41): no edges given — catalog without region / region without magnitudes → CSEP_MW_BINS
+                c = rng.choice(cats[2:])
+                had_region = c.region is not None
+                cnt = numpy.asarray(c.magnitude_counts(), dtype=float)
+                gmw = grid_now(numpy.array(CSEP_MW_BINS, dtype=float))
+                al = [c02.allowed_val(gmw, "f64", None, True, x) for x in P]
+                hi = numpy.zeros(gmw.n); lo = numpy.zeros(gmw.n)
+                for a in al:
+                    for k in a:
+                        if k >= 0:
+                            hi[k] += 1
+                    if len(a) == 1 and min(a) >= 0:
+                        lo[min(a)] += 1
+                if cnt.shape != (gmw.n,) or numpy.any(cnt < lo) or numpy.any(cnt > hi):
+                    run.oracle_failure(case, f"magnitude_counts() without edges (region {'without magnitudes' if had_region else 'None'}) is not the histogram on CSEP_MW_BINS: {cnt.tolist()[:10]}…")
+                    return
+                if (c.region is None) == had_region:
+                    run.oracle_failure(case, "magnitude_counts() without edges bound / unbound a region object")
+                    return
+        except Exception as e:
+            run.oracle_failure(case, f"step {stepno + 1} ({kind}) of a session on shared arrays raised {type(e).__name__}: {str(e)[:150]}")
+            return
+        steps.append(kind)
+        # after every step: the inputs are untouched, the shared region carries the edges last bound, other regions nothing new
+        if not numpy.array_equal(P, Psnap):
+            run.oracle_failure(case, f"the value array handed to the library was modified by step {kind}")
+            return
+        if kind not in ("rebind", "forecast2") and not numpy.array_equal(numpy.asarray(cur, dtype=float), Bsnap):
+            run.oracle_failure(case, f"the edge array handed to the library was modified by step {kind}")
+            return
+        if R.magnitudes is not cur or getattr(R, "num_mag_bins", None) != len(cur):
+            run.oracle_failure(case, f"after step {kind} the shared region's magnitudes are not the edges last bound to it (num_mag_bins={getattr(R, 'num_mag_bins', None)}, expected {len(cur)})")
+            return
+    run.evaluations += len(steps) * len(P)
+
+
+def nonfinite_and_sizes(ctx, c02, tier):
+    """NaN / -inf values (AWAITING_DECISION[0]: observed), +inf (enforced elsewhere); more than 2^16 events in one magnitude bin;
+    an edge array with more than 2^16 (not a multiple of 2^16) edges"""
+    run, rng = ctx.run, ctx.rng
+    from csep.core.catalogs import CSEPCatalog
+    from csep.core.forecasts import GriddedForecast
+    from csep.core import regions
+    from csep.utils.calc import bin1d_vec
+    g = c02.build_grid(dict(kind="mw"))
+    for v in (float("nan"), float("-inf")):
+        for rc in (False, True):
+            try:
+                out = [int(i) for i in numpy.asarray(bin1d_vec(numpy.array([5.0, v, 6.0]), g.bins, right_continuous=rc))]
+            except Exception as e:
+                out = "EXC:" + type(e).__name__
+            if out == "EXC" or not isinstance(out, list) or out[0] != 25 or out[2] != 35:
+                run.oracle_failure(dict(kind="calls", what="nonfinite", p=[repr(v)], rc=rc), f"bin1d_vec([5.0, {v!r}, 6.0]) = {out!r}: the finite neighbours must get bins 25 and 35")
+            elif out[1] >= 0:
+                run.oracle_failure(dict(kind="calls", what="nonfinite", p=[repr(v)], rc=rc), f"bin1d_vec placed {v!r} in bin {out[1]}")
+            elif out[1] != -1:
+                run.count("awaiting-decision: NaN / -inf value gets the minimum int64 instead of -1")
+    # > 2^16 events in ONE bin, > 2^16 events in total (not a multiple of 2^16)
+    n1 = 65536 + rng.randint(1, 3000)
+    mags = numpy.concatenate([numpy.full(n1, 5.95), numpy.full(rng.randint(3, 400), 4.449999999999999), numpy.full(7, 12.5), numpy.full(5, 1.0)])
+    data = numpy.zeros(len(mags), dtype=[("id", "S256"), ("origin_time", "<i8"), ("latitude", "<f8"), ("longitude", "<f8"), ("depth", "<f8"), ("magnitude", "<f8")])
+    data["id"] = numpy.arange(len(mags)).astype("S256")
+    data["origin_time"] = numpy.arange(len(mags)) * 1000
+    data["latitude"], data["longitude"], data["magnitude"] = 0.05, 0.05, mags
+    case = dict(kind="calls", what="big", n=len(mags))
+    run.case(case, ("c02-big", len(mags)))
+    run.count("more_than_65536_events_in_one_bin")
+    run.evaluations += len(mags)
+    try:
+        reg = regions.create_space_magnitude_region(regions.CartesianGrid2D.from_origins(numpy.array([[0., 0.], [0.1, 0.]]), dh=0.1), g.bins)
+        cat = CSEPCatalog(data=data, region=reg)
+        cnt = numpy.asarray(cat.magnitude_counts())
+        exp = numpy.zeros(g.n)
+        for val in numpy.unique(mags):
+            a = c02.allowed_val(g, "f64", None, True, val)
+            if len(a) == 1 and min(a) >= 0:
+                exp[min(a)] += int((mags == val).sum())
+        inband = [val for val in numpy.unique(mags) if len(c02.allowed_val(g, "f64", None, True, val)) > 1]
+        if cnt.shape != exp.shape or (not inband and not numpy.array_equal(cnt, exp)) or cnt.sum() != len(mags) - 5:
+            run.oracle_failure(case, f"magnitude_counts of {len(mags)} events: bin 34/35 hold {cnt[34:36].tolist()}, total {cnt.sum()!r}; expected {exp[34:36].tolist()}, total {len(mags) - 5}")
+        gi = numpy.asarray(cat.get_mag_idx())
+        if gi.shape != mags.shape or int((gi == 34).sum() + (gi == 35).sum()) < n1 or int((gi == -1).sum()) != 5 or int((gi == g.n - 1).sum()) != 7:
+            run.oracle_failure(case, f"get_mag_idx of {len(mags)} events: {int((gi == -1).sum())} below range (5), {int((gi == g.n - 1).sum())} in the open last bin (7)")
+    except Exception as e:
+        run.oracle_failure(case, f"{type(e).__name__}: {str(e)[:150]}")
+    # > 2^16 edges
+    spec = dict(kind="decimal", S=rng.randint(-40000, 5000), D=rng.choice([1, 5, 25]), nd=rng.choice([1, 2]), n=65536 + rng.randint(1, 5000))
+    gb = c02.build_grid(spec)
+    run.count("grid_with_more_than_65536_edges")
+    c02.run_grid(ctx, gb, modes=(False, True) if tier != "quick" else (rng.random() < 0.5,), n_model=40, tag="more-than-2^16-edges", disc=False)
